@@ -302,10 +302,10 @@ def rescDSite (tmp dTmp : List α) (c : α) : List α × α × α :=
   let ds := sumL dTmp
   (List.zipWith (fun dt t => (dt * c - t * ds) / (c * c)) dTmp tmp, ds, ds / c)
 
-/-- `tmp`, `dTmp` at a site ≥ 1 (lines 428-459); the reset branch (and the initialisation) use
-`eqFreq[j]`, not `Σ_k eqFreq[k]·P(k,j)` as `computeForward_` does -/
+/-- `tmp`, `dTmp` at a site ≥ 1; the reset branch (and the initialisation) start from `Σ_k eqFreq[k]·P(k,j)` like
+`computeForward_` (as repaired: they used `eqFreq[j]`, the derivative of another function unless the vector is stationary) -/
 def rescDTmp (p : Params α) (brk : Bool) (e de : Emis α) (prevLik prevDLik : List α) : List α × List α :=
-  if brk then (vec p.n (fun j => e j * p.pi j), vec p.n (fun j => de j * p.pi j))
+  if brk then (vec p.n (fun j => e j * dot (col p j) (piL p)), vec p.n (fun j => de j * dot (col p j) (piL p)))
   else
     (vec p.n (fun j => e j * dot (col p j) prevLik),
      vec p.n (fun j => de j * dot (col p j) prevLik + e j * sumL (mulV (col p j) prevDLik)))
@@ -346,7 +346,8 @@ def rescD2Site (tmp dTmp d2Tmp : List α) (c ds : α) : List α × α × α :=
 
 def rescD2Tmp (p : Params α) (brk : Bool) (e de d2e : Emis α) (prevLik prevDLik prevD2Lik : List α) :
     List α × List α × List α :=
-  if brk then (vec p.n (fun j => e j * p.pi j), vec p.n (fun j => de j * p.pi j), vec p.n (fun j => d2e j * p.pi j))
+  if brk then (vec p.n (fun j => e j * dot (col p j) (piL p)), vec p.n (fun j => de j * dot (col p j) (piL p)),
+    vec p.n (fun j => d2e j * dot (col p j) (piL p)))
   else
     (vec p.n (fun j => e j * dot (col p j) prevLik),
      vec p.n (fun j => de j * dot (col p j) prevLik + e j * sumL (mulV (col p j) prevDLik)),
@@ -838,15 +839,14 @@ def LogObj.refreshBack (o : LogObj α) : LogObj α :=
   if o.backUpToDate then o
   else { o with back := logBackward o.tab.p o.tab.es o.bps, backUpToDate := true }
 
-/-- `getFirstOrderDerivative(var)` (HmmLikelihood.cpp:33) with `computeDForward_`: the name is stored before
-the computation; `none` = the computation throws (the arrays are then partly rewritten in the C++: such an
-object is not followed further) -/
+/-- `getFirstOrderDerivative(var)` (HmmLikelihood.cpp:33) with `computeDForward_`; `none` = the computation throws:
+the cached name is then forgotten (as repaired; the arrays may be partly rewritten, nothing refers to them) -/
 def LogObj.firstOrder [HasIsInf α] (o : LogObj α) (var : String) : LogObj α × Option α :=
   if var != o.dVar then
     let de := o.tab.dE var
     match logDForward o.tab.p o.tab.e0 o.tab.es de.1 de.2 o.bps o.fw with
     | some d => ({ o with dVar := var, dfw := d }, some (-d.dLogLik))
-    | none => ({ o with dVar := var }, none)
+    | none => ({ o with dVar := "" }, none)
   else (o, some (-o.dfw.dLogLik))
 
 def LogObj.step [HasIsInf α] (o : LogObj α) : Op α → LogObj α × Ans α
@@ -891,14 +891,14 @@ def LogObj.step [HasIsInf α] (o : LogObj α) : Op α → LogObj α × Ans α
     if var != o.d2Var then
       let r := ({ o with d2Var := var }).firstOrder var
       match r.2 with
-      | none => (r.1, .exc)
+      | none => ({ r.1 with d2Var := "" }, .exc)
       | some _ =>
         let o1 := r.1
         let de := o.tab.dE var
         let d2e := o.tab.d2E var
         match logD2Forward o.tab.p o.tab.e0 o.tab.es de.1 de.2 d2e.1 d2e.2 o.bps o1.fw o1.dfw with
         | some d2 => ({ o1 with d2fw := d2 }, .val (-d2.d2LogLik))
-        | none => (o1, .exc)
+        | none => ({ o1 with d2Var := "" }, .exc)
     else (o, .val (-o.d2fw.d2LogLik))
   | .dSite site => (o, ansOfSite (logDSiteOf o.fw o.dfw.dLog o.bps site))
   | .d2Site site => (o, ansOfSite (logD2SiteOf o.fw o.dfw.dLog o.d2fw.d2Log o.bps site))
@@ -968,12 +968,9 @@ def LowObj.step (o : LowObj α) : Op α → LowObj α × Ans α
     let ll := lowCompute o.tab o.maxSize bps; ({ o with bps := bps, logLik := ll }, .val ll)
   | .logLik => (o, .val o.logLik)
   | .posterior | .posteriorInto _ _ | .posteriorSite _ | .siteLik _ | .siteLiks => (o, .exc)   -- NotImplementedException
-  | .d1 var =>
-    -- getFirstOrderDerivative stores the name, then computeDLikelihood_ throws NotImplementedException:
-    -- a second call with the same name answers -dLogLik_ = -0
-    if var != o.dVar then ({ o with dVar := var }, .exc) else (o, .val (-zero))
-  | .d2 var =>
-    if var != o.d2Var then ({ o with d2Var := var }, .exc) else (o, .val (-zero))
+  -- computeD(2)Likelihood_ throw NotImplementedException; the name is not kept (as repaired: it was, and a second
+  -- call with the same name answered -dLogLik_ = -0)
+  | .d1 _ | .d2 _ => (o, .exc)
   | .dSite _ | .d2Site _ => (o, .exc)   -- NotImplementedException
 
 /-- what a fresh object answers -/
